@@ -104,6 +104,17 @@ def unit_entry(eng, fi, c, fr):
 
 def unit_exit(eng, fi, c, fr, outcome):
     objs = eng.st.ghost.get('unit_objs', [])
+    frame_decl = c.extra.get('modifies')
+    entry = eng.st.ghost.get('entry_heap')
+    if frame_decl is not None and entry is not None and c.extra.get('method'):
+        # the frame callers rely on (their havoc at the call is restricted to it) is checked here: nothing outside changed
+        for key_ in sorted(eng.st.heap):
+            cname, f_ = key_
+            if ('%s.%s' % (cname, f_)) in frame_decl or (cname + '.*') in frame_decl or key_ not in entry:
+                continue
+            if eng.st.heap[key_] is not entry[key_] and not eng.st.heap[key_].eq(entry[key_]):
+                eng.prove('frame:%s.%s-unchanged' % (cname, f_), eng.st.heap[key_] == entry[key_], kind='post',
+                          props=c.props, assume_after=False)
     if c.extra.get('no_invariant_at_exit'):
         return
     for o in objs:
